@@ -1,9 +1,10 @@
 /-
-  C19 — thread-safe iterators.  No algorithm model of the iterating containers exists yet; the property is
-  decided by the relational oracle of the harness client (harness/clients/iter.cpp) on explored schedules of the
-  real code.  What is stated here is the judgement the oracle implements, as decidable definitions over a logged
-  iteration, so that the clauses checked by the client are fixed in one place and their mutual consistency
-  (non-vacuity) is machine-checked.
+  C19 — thread-safe iterators: the judgement of the relational oracle of the harness client
+  (harness/clients/iter.cpp), as decidable definitions over a logged iteration, so that the clauses checked by
+  the client are fixed in one place and their mutual consistency (non-vacuity) is machine-checked.
+  The algorithm-level theorems (IterableList machine with its iterator, for every schedule) are in
+  Props/C19Iterable.lean; the Feldman iterators and the hash sets over IterableList have no machine and are
+  decided by this oracle on explored schedules of the real code.
 -/
 import CdsVerif.Base.Spec
 namespace CdsVerif.Props.C19
